@@ -11,8 +11,8 @@ expression tokens (Polish notation, fixed arity):
   c:eq|ne|lt|le|gt|ge e e    and e e    or e e    a:+|-|* e e    if e e e
         q:<m>/<k> (xs:decimal m / 10^k)   u:<hex>… (xs:untypedAtomic)   n:<i> (node, pre-order index)
         d:-0 (negative zero);  doc=<hex>…|<hex>…|- … the string values of the nodes (`-` = empty, `_` = no document)
-Answer:  model=<result> spec=<result> k=<0|1> u=<0|1> lazy=<result> errs=<codes|_>
-         (k, u: triggers of the findings F08b, F08u; lazy / errs: the permitted outcomes, Spec.Permitted)
+Answer:  model=<result> spec=<result> k=<0|1> m=<0|1> lazy=<result> errs=<codes|_>
+         (k: trigger of finding F08b; m: invariant / monotone promotion on a top-level fn:max / fn:min; lazy / errs: the permitted outcomes, Spec.Permitted)
 result = `_` (empty) | atoms joined by `,` | ERR:<code>.
 Optional field coll=ci: the default collation is html-ascii-case-insensitive.
 Kernel probes:  ckey=<hex|->,<hex|-> → string eq / lt under html-ascii-case-insensitive;  lex=<hex|-> → the xs:double of a lexical form or ERR:FORG0001;  rnd=<n>/<d> → the double nearest to n/d;  sig28=<n>/<d> → n/d at 28 significant digits.
@@ -242,18 +242,13 @@ def answer (line : String) : String :=
                        coll := if field fs "coll" == "ci" then .asciiCI else .codepoint }
       let m := parseEval e c
       let s := Spec.sem Spec.foSum e c
-      -- trigger of finding F08u: a top-level fn:sum over a node with a non-numeric string value
-      let u := match e with
-        | .fn1 .sum a | .fn2 .sum a _ =>
-          (match Spec.sem Spec.foSum a c with | .ok v => Spec.sumNodeInvalid c.doc v | _ => false)
-        | _ => false
       -- hypothesis of theorem `min_max_fo_literal` on a top-level fn:max / fn:min: the promotion to
       -- xs:double is monotone on the (converted) argument values; `m=0` reports a failure
       let mono := match e with
         | .fn1 .min a | .fn1 .max a =>
           (match Spec.sem Spec.foSum a c with
            | .ok v => (match Spec.castUntyped (v.map (Spec.atomized c.doc)) with
-                       | .ok w => Spec.promotionMonotoneOn w
+                       | .ok w => Spec.promotionMonotoneOn w && w.all Spec.goodItem
                        | _ => true)
            | _ => true)
         | _ => true
@@ -261,7 +256,7 @@ def answer (line : String) : String :=
       let lzv := (Spec.lz Spec.foSum e c).force
       let cs := (Spec.codes Spec.foSum e c).eraseDups
       let errs := if cs.isEmpty then "_" else ",".intercalate (cs.map showErr)
-      s!"model={showR m} spec={showR s} k={if e.loopVarInRange then 1 else 0} u={if u then 1 else 0} m={if mono then 1 else 0} lazy={showR lzv} errs={errs}"
+      s!"model={showR m} spec={showR s} k={if e.loopVarInRange then 1 else 0} m={if mono then 1 else 0} lazy={showR lzv} errs={errs}"
   | some (_, _ :: _), _, _, _, _ => "bad-expr-trailing"
   | none, _, _, _, _ => "bad-expr"
   | _, _, _, _, _ => "bad-line"
